@@ -13,6 +13,7 @@ import (
 )
 
 type Clause struct {
+	Props []string // restricts the clause to these properties (default: the function's)
 	Text  string
 	Expr  *CExpr
 	Label string
@@ -24,6 +25,7 @@ type ModItem struct {
 	All   bool   // modifies *
 	Heap  string // heap(T.f) : whole component by struct.field name, or ghost/global name
 	Expr  *CExpr // lvalue x.f
+	Captured string // captured variable of a closure (its cell)
 	Elems bool   // elems(x): backing array of slice x
 	MapOf bool   // mapof(m): contents of map m
 	Text  string
@@ -40,6 +42,9 @@ type Contract struct {
 	Inv     map[int][]*Clause
 	Asserts map[string][]*Clause // keyed "call <callee>#k" -> clauses asserted before that call
 	After   map[string][]*Clause // ghost updates / assumptions are not allowed; only asserts (checked) after call
+	Invokes []*InvokeClause
+	Maintains []*Clause
+	Preserves []*Clause
 	Effects []*GhostEffect // declared ghost effects: each call performs g := expr (expr over the pre-state and results)
 	TouchesOwned bool // runs inside a monitor held by its caller: may change monitor-owned objects
 	Locks   []*CExpr // objects whose monitor this function acquires: contract is relative to the acquisition state
@@ -53,6 +58,16 @@ type Contract struct {
 	Line    int
 	Notes   []string
 	Lemma   bool
+}
+
+// InvokeClause: `invokes f(v1, v2) where <expr>`: the callee may call its function-valued parameter f any number of
+// times, each time with arguments satisfying the where-expression (bound variables v1.. range over all values).
+type InvokeClause struct {
+	Param string
+	Vars  []string
+	With  []boundVar // extra universally quantified variables of the where-expression
+	Where *CExpr
+	Text  string
 }
 
 type GhostEffect struct {
@@ -100,6 +115,7 @@ type ContractSet struct {
 	FlagChans map[string]bool // "pkgpath|T.f"
 	Files   []string
 	Specs   map[string]*SpecDef
+	Sorts   map[string]bool
 }
 
 func newContractSet() *ContractSet {
@@ -138,7 +154,7 @@ func (cs *ContractSet) parseContractFile(file, pkgPath string) error {
 	// join continuation lines: a line whose first token is not a keyword continues the previous one
 	keywords := map[string]bool{"func": true, "props": true, "requires": true, "ensures": true, "modifies": true, "invariant": true,
 		"trusted": true, "arith": true, "inline": true, "pred": true, "ghost": true, "owner": true, "flagchan": true, "assert": true,
-		"effect": true, "monitor": true, "locks": true, "inmonitor": true, "pure": true, "blocking": true, "note": true, "lemma": true, "params": true, "spec": true, "axiom": true}
+		"invokes": true, "preserves": true, "maintains": true, "sort": true, "effect": true, "monitor": true, "locks": true, "inmonitor": true, "pure": true, "blocking": true, "note": true, "lemma": true, "params": true, "spec": true, "axiom": true}
 	var joined []item
 	for _, it := range items {
 		f := strings.Fields(it.text)
@@ -218,7 +234,12 @@ func (cs *ContractSet) parseContractFile(file, pkgPath string) error {
 			if err != nil {
 				return perr(err)
 			}
-			cl := &Clause{Text: text, Expr: e, Label: label, File: file, Line: it.line}
+			var cprops []string
+			if lf := strings.Fields(label); len(lf) > 1 {
+				label = lf[0]
+				cprops = lf[1:]
+			}
+			cl := &Clause{Text: text, Expr: e, Label: label, Props: cprops, File: file, Line: it.line}
 			switch kw {
 			case "requires":
 				cur.Req = append(cur.Req, cl)
@@ -269,6 +290,8 @@ func (cs *ContractSet) parseContractFile(file, pkgPath string) error {
 					mi.Heap = strings.TrimSpace(part[5 : len(part)-1])
 				case strings.HasPrefix(part, "ghost "):
 					mi.Heap = "ghost:" + strings.TrimSpace(part[6:])
+				case strings.HasPrefix(part, "captured "):
+					mi.Captured = strings.TrimSpace(part[9:])
 				case strings.HasPrefix(part, "global "):
 					mi.Heap = "global:" + strings.TrimSpace(part[7:])
 				case strings.HasPrefix(part, "elems(") && strings.HasSuffix(part, ")"):
@@ -358,7 +381,7 @@ func (cs *ContractSet) parseContractFile(file, pkgPath string) error {
 			if op < 0 || cl < op {
 				return perr(fmt.Errorf("spec name(T, ...) R"))
 			}
-			sd := &SpecDef{Name: strings.TrimSpace(rest[:op]), Ret: strings.TrimSpace(rest[cl+1:])}
+			sd := &SpecDef{Name: strings.TrimSpace(rest[:op]), Ret: strings.TrimSpace(rest[cl+1:]), Pkg: pkgPath}
 			for _, p := range splitTop(rest[op+1:cl], ',') {
 				if p = strings.TrimSpace(p); p != "" {
 					sd.Params = append(sd.Params, p)
@@ -435,6 +458,63 @@ func (cs *ContractSet) parseContractFile(file, pkgPath string) error {
 				return perr(err)
 			}
 			cur.Effects = append(cur.Effects, &GhostEffect{Name: strings.TrimSpace(rest[:k]), Expr: e, Text: rest})
+		case "invokes":
+			// invokes f(v, w) [where expr]
+			if cur == nil {
+				return perr(fmt.Errorf("invokes outside func"))
+			}
+			ic := &InvokeClause{Text: rest}
+			head := rest
+			if k := strings.Index(rest, " where "); k >= 0 {
+				if w := strings.Index(rest[:k], " with "); w >= 0 {
+					for _, p := range splitTop(rest[w+6:k], ',') {
+						p = strings.TrimSpace(p)
+						sp := strings.IndexAny(p, " \t")
+						if sp < 0 {
+							return perr(fmt.Errorf("with: variable needs a type"))
+						}
+						ic.With = append(ic.With, boundVar{Name: p[:sp], Type: strings.TrimSpace(p[sp:])})
+					}
+					rest = rest[:w] + rest[k:]
+					k = w
+				}
+				head = strings.TrimSpace(rest[:k])
+				e, err := parseCExpr(strings.TrimSpace(rest[k+7:]))
+				if err != nil {
+					return perr(err)
+				}
+				ic.Where = e
+			}
+			op := strings.Index(head, "(")
+			if op < 0 || !strings.HasSuffix(head, ")") {
+				return perr(fmt.Errorf("invokes f(args)"))
+			}
+			ic.Param = strings.TrimSpace(head[:op])
+			for _, v := range strings.Split(head[op+1:len(head)-1], ",") {
+				if v = strings.TrimSpace(v); v != "" {
+					ic.Vars = append(ic.Vars, v)
+				}
+			}
+			cur.Invokes = append(cur.Invokes, ic)
+		case "preserves", "maintains":
+			if cur == nil {
+				return perr(fmt.Errorf("%s outside func", kw))
+			}
+			e, err := parseCExpr(rest)
+			if err != nil {
+				return perr(err)
+			}
+			if kw == "preserves" {
+				cur.Preserves = append(cur.Preserves, &Clause{Text: rest, Expr: e, File: file, Line: it.line})
+			} else {
+				cur.Maintains = append(cur.Maintains, &Clause{Text: rest, Expr: e, File: file, Line: it.line})
+			}
+		case "sort":
+			if cs.Sorts == nil {
+				cs.Sorts = map[string]bool{}
+			}
+			cs.Sorts[f[1]] = true
+			cur = nil
 		case "inmonitor":
 			cur.TouchesOwned = true
 		case "flagchan":
